@@ -141,7 +141,7 @@ def render(prog):
             out.tok("hequal", "=")
             out.gap(g[1], allow_nl=False)
         out.tok("command", c["command"])
-        out.gap(g[2], allow_nl=False)
+        out.gap(g[2])
         out.tok("lparen", "(")
         for j, a in enumerate(c["args"]):
             ag = a.get("g") or [None] * 4
@@ -419,8 +419,10 @@ def commands(draw, value_strategy=None, max_args=5):
     for nm in names:
         args.append({"name": nm, "value": draw(value_strategy), "g": [draw(gaps(4)), draw(gaps(1)), draw(gaps(1)), draw(gaps(2))]})
     return {
-        "result": draw(IDENT), "command": draw(IDENT), "args": args,
-        "g": [draw(inline_gap()), draw(inline_gap()), draw(inline_gap()), draw(gaps(4))],
+        # one command in eight is written bare, the EEMS 2.0 way (no result name)
+        "result": None if draw(st.integers(0, 7)) == 0 else draw(IDENT), "command": draw(IDENT), "args": args,
+        # the opening parenthesis may stand on a later line than the command name (after a comment, too)
+        "g": [draw(inline_gap()), draw(inline_gap()), draw(gaps(1)), draw(gaps(4))],
         "trail_comma": draw(st.booleans()),
         "after": draw(gaps(10)),
     }
@@ -431,7 +433,7 @@ def programs(draw, value_strategy=None, max_commands=5, nl=None):
     cmds = draw(st.lists(commands(value_strategy), min_size=1, max_size=max_commands))
     seen = set()
     for i, c in enumerate(cmds):
-        while c["result"] in seen:
+        while c["result"] is not None and c["result"] in seen:
             c["result"] = c["result"] + "_%d" % i
         seen.add(c["result"])
     prog = {
